@@ -75,6 +75,14 @@ class NativeKeyBinding(metaclass=ABCMeta):
                     raise ValueError('"use" and "key_ops" does not match')
 
 
+def _own_copy(value: t.Any) -> t.Any:
+    try:
+        return copy.deepcopy(value)
+    except RecursionError:
+        # an "epk" or a JWK Set from the network may be nested as deeply as its sender likes
+        raise ValueError("JWK is nested too deeply")
+
+
 class BaseKey(t.Generic[NativePrivateKey, NativePublicKey], metaclass=ABCMeta):
     key_type: t.ClassVar[str]
     binding: t.ClassVar[t.Type[NativeKeyBinding]]
@@ -92,13 +100,13 @@ class BaseKey(t.Generic[NativePrivateKey, NativePublicKey], metaclass=ABCMeta):
         self.original_value = original_value
         # the key keeps copies: the dicts handed over (and the lists in them)
         # remain the caller's, to be changed or used for the next key
-        self.extra_parameters = copy.deepcopy(parameters)
+        self.extra_parameters = _own_copy(parameters)
         self._dict_value: DictKey = {}
         if isinstance(original_value, dict):
             if parameters is not None:
-                data = copy.deepcopy({**original_value, **parameters, "kty": self.key_type})
+                data = _own_copy({**original_value, **parameters, "kty": self.key_type})
             else:
-                data = copy.deepcopy({**original_value, "kty": self.key_type})
+                data = _own_copy({**original_value, "kty": self.key_type})
             self.validate_dict_key(data)
             self._dict_value = data
 
@@ -183,7 +191,7 @@ class BaseKey(t.Generic[NativePrivateKey, NativePublicKey], metaclass=ABCMeta):
         # "key_ops", "x5c" ... are lists: what is handed out is not the key's own
         for k, v in data.items():
             if isinstance(v, (list, dict)):
-                data[k] = copy.deepcopy(v)  # type: ignore[literal-required]
+                data[k] = _own_copy(v)  # type: ignore[literal-required]
         if private is not False:
             data.update(params)
             return data
